@@ -40,6 +40,35 @@ CHECKS = {
         technique='symbolic execution of jaxprs to z3 real terms; polynomial identities by nlsat', design='C19'),
 }
 
+CHECKS.update({
+    'C15': dict(
+        text='training.wrap (Vmap+Episode+AutoReset), EvalWrapper, acting.generate_unroll/actor_step and the Evaluator\'s traced unroll are symbolically '
+             'executed around a scripted environment whose termination flags (Bool) and rewards (Real) are SYMBOLIC schedules, so each query covers all '
+             'schedules of the unrolled length at once; outputs are proved equal to a reference automaton (QF_LRA+Bool), per member and wrapped step; '
+             'member independence by a two-copy query.',
+        note='Bounds: episode_length 1-3 x action_repeat 1-2 (quick), 1-6 x 1-3 (thorough), batch 2, history 3*episode_length raw steps. brax.v1.envs is '
+             'replaced by an empty stub module (not importable on the pinned jax; acting.py uses it for type aliases only).',
+        technique='symbolic execution of jaxprs with symbolic Boolean schedules; equivalence with a reference automaton (QF_LRA)', design='C15'),
+    'C17': dict(
+        text='Inductive step from an arbitrary valid queue state: one insert_internal / sample_internal with symbolic records and symbolic sample cursor '
+             '(insert cursor enumerated 0..capacity so moduli are constants) is proved equal to an abstract bounded FIFO, and the representation invariant is '
+             'proved preserved (QF_LIA); host-side guards are executed by the forking executor FX on a symbolic _size and tied to the device state by the '
+             'invariant _size == held; uniform queue under a randint contract stub; sharded wrappers: routing/interleaving of symbolic records.',
+        note='Bounds: capacity 1-4 (quick) / 1-6 (thorough), insert batch 1..capacity, sample batch 1..min(4,capacity); shards 2-4 with concrete cursors. '
+             'jax.random.randint is stubbed by its contract. int32 overflow outside.',
+        technique='symbolic execution of jaxprs (symbolic-index dynamic_slice/update/gather as If-chains) + path-forking symbolic execution of Python guards; QF_LIA',
+        design='C17'),
+    'C20': dict(
+        text='NormalTanhDistribution / TanhBijector / PPO make_inference_fn are symbolically executed with exp/log/log1p/tanh/atanh as uninterpreted '
+             'applications under sound real axioms; log_prob, entropy, reparameterised sampling, mode, range, scale floor and the inference function\'s '
+             'outputs are proved for all real parameters; finiteness for arbitrarily large inputs is decided under a saturation abstraction (exp may be 0, '
+             'tanh may be +-1): every log / log1p / atanh argument and denominator stays inside its domain.',
+        note='The log-det-Jacobian is checked structurally against the stable closed form plus solver-decided two-sided anchors; its equality with log(1-tanh^2) '
+             'is a paper fact. jax.random.normal is a stub (fresh epsilon per key). Event sizes 1-2 (quick) / 1-3 (thorough), 0-1 batch axes.',
+        technique='symbolic execution of jaxprs; uninterpreted transcendental applications with sound axioms; QF_NRA; saturation abstraction for finiteness',
+        design='C20'),
+})
+
 NOT_APPLICABLE = {
     'C16': 'whole-program finiteness of 11 environments over 200-1000-step histories with contact switching and float overflow: '
            'outside what a bounded real-arithmetic encoding can decide (DESIGN.md section 3)',
